@@ -1,5 +1,6 @@
 import CryoCat.Model.C01
-/-! C01 — property theorems (only theorems and non-vacuity examples; helper lemmas are local). -/
+import CryoCat.Lemmas.C01
+/-! C01 — property theorems (only theorems and non-vacuity examples; list helper lemmas are local, byte helper lemmas in `Lemmas/C01`). -/
 namespace CryoCat.C01
 variable {α β : Type}
 
@@ -12,13 +13,14 @@ theorem em_field_order : genColumns = Field.all := by decide
 
 theorem read_expects_20 : Gen.C01.readExpectedColumns = 20 := by decide
 
-/-- the writer selects the columns by name before `to_numpy()` -/
+/-- the array the source hands to `emfile.write` is indexed with `[…motl_columns]` (read off the data-flow
+expression of `EmMotl.write_out` by the translator); the model's writer `writeGen` branches on this flag -/
 theorem writer_selects_by_name : Gen.C01.writeSelectsCanonical = true := by decide
 
-/-- the writer replaces missing values by 0 itself (`fillna(0.0)` on what it writes), … -/
-theorem writer_fills_missing : Gen.C01.writeFillsMissingWithZero = true := by decide
+/-- the literal of the `.fillna(·)` on what is written is 0 (`writeGen` fills with whatever literal the source has) -/
+theorem writer_fills_missing : Gen.C01.writeFill = some 0 := by decide
 
-/-- … and casts to single precision (`astype(np.single)`) -/
+/-- the array is cast to single precision (`writeGen` stores float64 / data-type 9 otherwise) -/
 theorem writer_casts_single : Gen.C01.writeCastsSingle = true := by decide
 
 /-! ### helper lemmas -/
@@ -100,15 +102,19 @@ theorem em_roundtrip_named (conv : α → β) (d : α) (d' : β) (t : Table α) 
   simp only [Option.map_some, particles, List.map_map]
   congr 1
 
-/-- **Missing values read back as 0, everything else as its single-precision rounding.** With the writer's
-conversion `conv isNaN r32 0` the named field of the loaded particle is `r32 0` where the table had a hole and
-`r32 v` otherwise — whatever `r32` is (the driver instantiates it with IEEE `Float.toFloat32`). -/
+/-- unfolding lemma of `conv` (an anchor for readers, not a clause of the property): on a missing value it is `r32 zero` -/
 theorem conv_missing (isNaN : α → Bool) (r32 : α → β) (zero v : α) (h : isNaN v = true) :
     conv isNaN r32 zero v = r32 zero := by simp [conv, h]
 
+/-- unfolding lemma of `conv`: on a present value it is `r32 v` -/
 theorem conv_present (isNaN : α → Bool) (r32 : α → β) (zero v : α) (h : isNaN v = false) :
     conv isNaN r32 zero v = r32 v := by simp [conv, h]
 
+/-- **Missing values read back as 0, everything else as its single-precision rounding** — `em_roundtrip_named`
+with the writer's conversion `conv isNaN r32 zero` spelled out (a restatement: the proof is a rewrite and `rfl`):
+the named field of the loaded particle is `r32 zero` where the table had a hole and `r32 v` otherwise, whatever
+`r32` is (the driver instantiates it with IEEE `Float.toFloat32`; that numpy's cast is the same function is an
+assumption compared bit for bit on every run, not a theorem). -/
 theorem em_roundtrip_values (isNaN : α → Bool) (r32 : α → β) (zero : α) (d' : β) (t : Table α) (hN : t.rows ≠ []) :
     (readEm (writeEm (conv isNaN r32 zero) zero t)).map (particles d')
       = some (t.rows.map (fun r => Particle.ofFn (fun f =>
@@ -136,8 +142,9 @@ theorem cell_of_accepted (d : α) (cols : List Field) (r : List α) (f : Field)
 theorem cell_canonical (d : β) (g : Field → β) (f : Field) : cell d Field.all (Field.all.map g) f = g f := by
   simp [cell, lookup_zip_map Field.all g f (Field.mem_all f)]
 
-/-- **Column order is irrelevant.** Two tables that hold the same named values (e.g. one is a
-column permutation of the other) give byte-identical files. -/
+/-- **Column order is irrelevant (cell level).** Two rows that hold the same named values under their headers
+(e.g. one is a column permutation of the other; the first header without repeated names) give the same by-name
+cell for every field. The file-level consequence is `em_write_same_named`. -/
 theorem em_write_perm_invariant (d : α) (cols cols' : List Field) (r r' : List α)
     (hn : cols.Nodup) (hl : cols.length = r.length) (hl' : cols'.length = r'.length)
     (hp : (cols'.zip r').Perm (cols.zip r)) (f : Field) :
@@ -177,7 +184,8 @@ private theorem flatMap_congr_idx (g g' : List α → List β) :
       (fun i h1 h2 => h (i + 1) (by simpa using h1) (by simpa using h2))]
 
 /-- file-level form: two tables with the same number of rows whose i-th rows hold the same named values
-(e.g. one is a column permutation of the other) give the **same file** -/
+(e.g. one is a column permutation of the other) give the **same file** (same extents and cells, hence the same bytes
+under `encodeEm`) -/
 theorem em_write_same_named (cv : α → β) (d : α) (t t' : Table α) (hl : t'.rows.length = t.rows.length)
     (h : ∀ i (h1 : i < t.rows.length) (h2 : i < t'.rows.length) f,
       cell d t'.cols t'.rows[i] f = cell d t.cols t.rows[i] f) :
@@ -190,8 +198,8 @@ theorem em_write_same_named (cv : α → β) (d : α) (t t' : Table α) (hl : t'
   intro f _
   rw [h i h1 h2 f]
 
-/-- **Layout on disk**: dims 20 × N × 1 (x fastest), payload 20·N, the 20 fields of one particle
-contiguous in the documented order. -/
+/-- **Layout of the array**: extents 20 × N × 1 (x fastest) and 20·N cells; that the 20 fields of particle `i` sit
+contiguously at `20·i + field index` in the documented order is `em_offset`, the bytes are `writeGen_bytes_decode`. -/
 theorem em_layout (conv : α → β) (d : α) (t : Table α) :
     (writeEm conv d t).dimX = 20 ∧ (writeEm conv d t).dimY = t.rows.length ∧
     (writeEm conv d t).dimZ = 1 ∧ (writeEm conv d t).data.length = 20 * t.rows.length := by
@@ -221,7 +229,8 @@ theorem em_offset (conv : α → β) (d : α) (t : Table α) (i : Nat) (hi : i <
       rw [this]
       exact ih i (by simpa using hi)
 
-/-- the constructor accepts every permutation of the 20 names and nothing else -/
+/-- the model's constructor check (`sorted(cols) == sorted(motl_columns)`) accepts every permutation of the 20 names
+and nothing else; the real constructor is compared with it on well-formed and malformed headers in the correspondence run -/
 theorem accepted_iff (cols : List Field) : accepted cols = true ↔ cols.Perm Field.all := by
   simp [accepted, em_field_order, List.isPerm_iff]
 
@@ -232,8 +241,231 @@ theorem em_scrambles_without_reindex :
     let t : Table Nat := { cols := cols, rows := [List.range 20] }
     writeEmAsIs id t ≠ writeEm id 0 t := by decide
 
+/-! ### the writer of the source (a function of the translated facts) -/
+
+/-- **The source's writer is the documented writer.** `writeGen` is `writeSrc` at the three facts the translator
+regenerates from `EmMotl.write_out` on every run; with today's facts it computes exactly `writeEm` with the
+property's cell conversion. Editing the source (`.fillna(1.0)`, dropping `[Motl.motl_columns]` or the cast) changes
+what `writeGen` computes and this proof no longer goes through. -/
+theorem writeGen_eq_writeEm (o : NumOps α) (t : Table α) :
+    writeGen o t = writeEm (specCell o) (o.ofInt 0) t := by
+  -- the regenerated values are unfolded here (not taken from the three flag theorems above), so this proof
+  -- itself stops checking when the source's facts change
+  unfold writeGen
+  simp only [Gen.C01.writeSelectsCanonical, Gen.C01.writeFill, Gen.C01.writeCastsSingle,
+    writeSrc, writeEm, if_true, List.map_map]
+  have hrow : (fun r => List.map ((fun v => o.store true (fillCell o (some 0) v)) ∘ fun f => cell (o.ofInt 0) t.cols r f) genColumns)
+      = (fun r => List.map (fun f => specCell o (cell (o.ofInt 0) t.cols r f)) genColumns) := by
+    funext r
+    apply List.map_congr_left
+    intro f _
+    simp only [Function.comp, NumOps.store, fillCell, specCell, conv, if_true]
+    split <;> rfl
+  rw [hrow]
+
+/-- **Round trip of the source's writer, any column order, N ≥ 1**: reading what `writeGen` wrote gives the
+canonical header and per particle, in order, the 20 named values: float32 of 0 where the table had a hole, float32 of
+the value otherwise -/
+theorem em_roundtrip_gen (o : NumOps α) (t : Table α) (hN : t.rows ≠ []) :
+    readEm (writeGen o t)
+      = some { cols := Field.all,
+               rows := t.rows.map (fun r => Field.all.map (fun f =>
+                 if o.isNaN (cell (o.ofInt 0) t.cols r f) then Stored.f32 (o.bits32 (o.ofInt 0))
+                 else Stored.f32 (o.bits32 (cell (o.ofInt 0) t.cols r f)))) } := by
+  rw [writeGen_eq_writeEm, em_roundtrip _ _ t hN]; rfl
+
+/-- the file `writeGen` describes: float32 (data-type 5), 20 × N × 1 -/
+theorem em_layout_gen (o : NumOps α) (t : Table α) :
+    (writeGen o t).dtype = 5 ∧ (writeGen o t).dimX = 20 ∧ (writeGen o t).dimY = t.rows.length ∧
+    (writeGen o t).dimZ = 1 ∧ (writeGen o t).data.length = 20 * t.rows.length := by
+  rw [writeGen_eq_writeEm]
+  exact ⟨rfl, em_layout _ _ t⟩
+
+/-- the model's writer really depends on each translated fact (witnesses on a toy number type, `none` = missing):
+another fill literal, … -/
+theorem writer_fill_matters :
+    let t : Table (Option Nat) := { cols := Field.all, rows := [(List.range 19).map some ++ [none]] }
+    writeSrc true (some 1) true toyOps t ≠ writeSrc true (some 0) true toyOps t
+    ∧ writeSrc true none true toyOps t ≠ writeSrc true (some 0) true toyOps t := by decide
+
+/-- … no cast (float64 cells, data-type 9), … -/
+theorem writer_cast_matters :
+    let t : Table (Option Nat) := { cols := Field.all, rows := [(List.range 20).map some] }
+    writeSrc true (some 0) false toyOps t ≠ writeSrc true (some 0) true toyOps t := by decide
+
+/-- … or table order instead of selection by name (defect D01 again, now in the writer the driver runs) -/
+theorem writer_selection_matters :
+    let t : Table (Option Nat) := { cols := [Field.geom1, Field.score] ++ Field.all.drop 2, rows := [(List.range 20).map some] }
+    writeSrc false (some 0) true toyOps t ≠ writeSrc true (some 0) true toyOps t := by decide
+
+/-! ### the file as bytes -/
+
+/-- **Decoding inverts encoding.** For every float32 volume with non-negative int32 extents whose payload has
+x·y·z cells, the decoder returns the volume from the bytes `emfile.write` lays down (512-byte header, little-endian
+float32 cells, x fastest). -/
+theorem decodeEm_encodeEm (f : EmFile UInt32) (hd : f.dtype = 5)
+    (hx : f.dimX < 2147483648) (hy : f.dimY < 2147483648) (hz : f.dimZ < 2147483648)
+    (hlen : f.data.length = f.dimX * f.dimY * f.dimZ) :
+    decodeEm (encodeEm (f.map Stored.f32)) = some f := by
+  have hfm : ∀ l : List UInt32, (l.map Stored.f32).flatMap Stored.bytes = l.flatMap le32 := by
+    intro l; induction l with
+    | nil => rfl
+    | cons a l ih => simp only [List.map_cons, List.flatMap_cons, ih, Stored.bytes]
+  have henc : encodeEm (f.map Stored.f32) = emHeader 5 f.dimX f.dimY f.dimZ ++ f.data.flatMap le32 := by
+    simp only [encodeEm, EmFile.map, hd, hfm]
+  rw [henc]
+  have hL : (emHeader 5 f.dimX f.dimY f.dimZ ++ f.data.flatMap le32).length = 512 + 4 * (f.dimX * f.dimY * f.dimZ) := by
+    rw [List.length_append, emHeader_length, flatMap_le32_length, hlen]
+  simp only [decodeEm, hL, header_machine, header_dtype, header_x _ _ _ _ _ (show f.dimX < 4294967296 by omega),
+    header_y _ _ _ _ _ (show f.dimY < 4294967296 by omega), header_z _ _ _ _ _ (show f.dimZ < 4294967296 by omega),
+    drop_header, words_flatMap]
+  have h1 : ¬ (512 + 4 * (f.dimX * f.dimY * f.dimZ) < 512) := by omega
+  have h2 : ¬ (f.dimX ≥ 2147483648 ∨ f.dimY ≥ 2147483648 ∨ f.dimZ ≥ 2147483648) := by omega
+  simp only [h1, h2, if_false, ne_eq, not_true_eq_false]
+  cases f; simp_all
+
+/-- **What the decoder accepts is a valid float32 EM volume**: full header with machine code 6 and data-type code 5,
+and exactly 4·x·y·z payload bytes, which are the decoded cells -/
+theorem decodeEm_sound (bs : List UInt8) (f : EmFile UInt32) (h : decodeEm bs = some f) :
+    f.dtype = 5 ∧ bs.getD 0 0 = 6 ∧ bs.getD 3 0 = 5 ∧ bs.length = 512 + 4 * (f.dimX * f.dimY * f.dimZ) ∧
+    f.dimX = u32At bs 4 ∧ f.dimY = u32At bs 8 ∧ f.dimZ = u32At bs 12 ∧ f.data = words (bs.drop 512) := by
+  unfold decodeEm at h
+  split at h; · cases h
+  split at h; · cases h
+  split at h; · cases h
+  simp only at h
+  split at h; · cases h
+  split at h; · cases h
+  cases h
+  simp_all
+
+/-- **The checker decides the last clause of the property on bytes**: it answers `ok` exactly when the bytes are a
+valid float32 EM volume of extents 20 × N × 1 (numpy shape 1 × N × 20) whose cells equal, as numbers, the demanded ones -/
+theorem checkFile_ok_iff (spec : List UInt32) (n : Nat) (bs : List UInt8) :
+    checkFile spec n bs = Verdict.ok ↔
+      ∃ f, decodeEm bs = some f ∧ f.dimX = 20 ∧ f.dimY = n ∧ f.dimZ = 1 ∧ f.data.length = spec.length ∧
+        ∀ k (h1 : k < f.data.length) (h2 : k < spec.length), sameNum f.data[k] spec[k] = true := by
+  have hfd : ∀ (a b : List UInt32) (i : Nat), firstDiff a b i = none ↔
+      (a.length = b.length ∧ ∀ k (h1 : k < a.length) (h2 : k < b.length), sameNum a[k] b[k] = true) := by
+    intro a
+    induction a with
+    | nil => intro b i; cases b <;> simp [firstDiff]
+    | cons x xs ih =>
+      intro b i
+      cases b with
+      | nil => simp [firstDiff]
+      | cons y ys =>
+        simp only [firstDiff, List.length_cons]
+        by_cases hs : sameNum x y = true
+        · simp only [hs, if_true, ih]
+          constructor
+          · rintro ⟨hl, hk⟩
+            refine ⟨by omega, ?_⟩
+            intro k h1 h2
+            cases k with
+            | zero => simpa using hs
+            | succ k => simpa using hk k (by omega) (by omega)
+          · rintro ⟨hl, hk⟩
+            refine ⟨by omega, ?_⟩
+            intro k h1 h2
+            have := hk (k + 1) (by omega) (by omega)
+            simpa only [List.getElem_cons_succ] using this
+        · constructor
+          · intro h; simp [hs] at h
+          · rintro ⟨_, hk⟩
+            exact absurd (by simpa using hk 0 (by omega) (by omega)) hs
+  unfold checkFile
+  cases hdec : decodeEm bs with
+  | none => simp
+  | some f =>
+    simp only [Option.some.injEq, exists_eq_left']
+    by_cases hshape : f.dimX ≠ 20 ∨ f.dimY ≠ n ∨ f.dimZ ≠ 1
+    · simp only [hshape, if_true]
+      constructor
+      · intro h; cases h
+      · rintro ⟨h1, h2, h3, _⟩; omega
+    · simp only [hshape, if_false]
+      have hs : f.dimX = 20 ∧ f.dimY = n ∧ f.dimZ = 1 := by omega
+      cases hfdv : firstDiff f.data spec 0 with
+      | none =>
+        have := (hfd _ _ _).1 hfdv
+        simp only [true_iff]
+        exact ⟨hs.1, hs.2.1, hs.2.2, this.1, this.2⟩
+      | some i =>
+        simp only [reduceCtorEq, false_iff]
+        rintro ⟨_, _, _, h4, h5⟩
+        rw [(hfd _ _ 0).2 ⟨h4, h5⟩] at hfdv; cases hfdv
+
+/-- **Decoding the bytes of the source's writer gives the property's cells** — for every table, every column order
+and every N < 2³¹ the decoder accepts `encodeEm (writeGen o t)` as a float32 volume of extents 20 × N × 1 whose
+cells are `specWords o t`: particle by particle, the 20 fields in the documented order, each looked up by name,
+missing → 0, rounded to single precision. -/
+theorem writeGen_bytes_decode (o : NumOps α) (t : Table α) (hN : t.rows.length < 2147483648) :
+    decodeEm (encodeEm (writeGen o t))
+      = some { dtype := 5, dimX := 20, dimY := t.rows.length, dimZ := 1, data := specWords o t } := by
+  have hdata : ∀ rows : List (List α),
+      rows.flatMap (fun r => Field.all.map (fun f => specCell o (cell (o.ofInt 0) t.cols r f)))
+        = (rows.flatMap (fun r => Field.all.map (fun f =>
+            let v := cell (o.ofInt 0) t.cols r f
+            if o.isNaN v then o.bits32 (o.ofInt 0) else o.bits32 v))).map Stored.f32 := by
+    intro rows
+    induction rows with
+    | nil => rfl
+    | cons r rs ih =>
+      simp only [List.flatMap_cons, List.map_append, ih, List.map_map]
+      congr 1
+      apply List.map_congr_left
+      intro f _
+      simp only [Function.comp, specCell, conv]
+      split <;> rfl
+  have hlen : (specWords o t).length = 20 * t.rows.length := by
+    unfold specWords
+    induction t.rows with
+    | nil => rfl
+    | cons r rs ih => simp only [List.flatMap_cons, List.length_append, List.length_map, Field.all_length, List.length_cons, ih]; omega
+  have hfile : writeGen o t = (EmFile.map Stored.f32
+      { dtype := 5, dimX := 20, dimY := t.rows.length, dimZ := 1, data := specWords o t } : EmFile Stored) := by
+    rw [writeGen_eq_writeEm]
+    simp only [writeEm, em_field_order, Field.all_length, EmFile.map, specWords, hdata]
+  have h20 : (20 : Nat) < 2147483648 := by decide
+  have h1 : (1 : Nat) < 2147483648 := by decide
+  rw [hfile]
+  exact decodeEm_encodeEm
+    ({ dtype := 5, dimX := 20, dimY := t.rows.length, dimZ := 1, data := specWords o t } : EmFile UInt32)
+    rfl h20 hN h1 (by simp only [hlen]; omega)
+
+/-- **The bytes the source's writer produces satisfy the property's last clause**: the checker that judges the real
+files answers `ok` on the model's own bytes, for every table, column order and N < 2³¹ (so a `file-vs-model`
+agreement of the real bytes with the model's bytes implies the real file satisfies the clause). -/
+theorem em_file_bytes_valid (o : NumOps α) (t : Table α) (hN : t.rows.length < 2147483648) :
+    checkFile (specWords o t) t.rows.length (encodeEm (writeGen o t)) = Verdict.ok := by
+  rw [checkFile_ok_iff]
+  refine ⟨_, writeGen_bytes_decode o t hN, rfl, rfl, rfl, rfl, ?_⟩
+  intro k h1 h2
+  simp [sameNum]
+
+/-- **Round trip through the bytes on disk**, 1 ≤ N < 2³¹, any column order: write with the source's writer, encode,
+decode, read with the model of `EmMotl.read_in` — the canonical header and, per particle in order, the float32 bit
+patterns of the 20 named values (missing → 0). -/
+theorem em_roundtrip_bytes (o : NumOps α) (t : Table α) (hN : t.rows ≠ []) (hN' : t.rows.length < 2147483648) :
+    (decodeEm (encodeEm (writeGen o t))).bind readEm
+      = some { cols := Field.all,
+               rows := t.rows.map (fun r => Field.all.map (fun f =>
+                 if o.isNaN (cell (o.ofInt 0) t.cols r f) then o.bits32 (o.ofInt 0)
+                 else o.bits32 (cell (o.ofInt 0) t.cols r f))) } := by
+  rw [writeGen_bytes_decode o t hN']
+  have hlen : t.rows.length ≠ 0 := by simpa using hN
+  simp only [Option.bind_some, readEm, read_expects_20, em_field_order, specWords]
+  simp only [hlen, if_false, ne_eq, not_true_eq_false]
+  rw [rowsOf_flatMap]
+  intro r _; simp [Field.all_length]
+
 /-! ### non-vacuity -/
 example : accepted ([Field.geom1, Field.score] ++ Field.all.drop 2) = true := by decide
+example : checkFile (specWords toyOps { cols := Field.all, rows := [(List.range 20).map some] }) 1
+    (encodeEm (writeSrc true (some 0) true toyOps { cols := Field.all, rows := [(List.range 20).map some] })) = Verdict.ok := by decide +kernel
+example : checkFile (specWords toyOps { cols := Field.all, rows := [(List.range 19).map some ++ [none]] }) 1
+    (encodeEm (writeSrc true (some 1) true toyOps { cols := Field.all, rows := [(List.range 19).map some ++ [none]] })) = Verdict.value 19 := by decide +kernel
 example : (readEm (writeEm (fun (v : Nat) => v + 1) 0
     ({ cols := [Field.geom1, Field.score] ++ Field.all.drop 2, rows := [List.range 20, List.range 20] } : Table Nat))).isSome = true := by decide
 
